@@ -584,7 +584,8 @@ let run_savetrace new_l =
   String.concat "|" ops
 let run_savecrash old_l new_l limit =
   let nl = dec_rules new_l in
-  let ok = int_of_string limit >= save_text_len nl in
+  (* "stale<n>": a stale temporary file is present, no write limit: the save succeeds *)
+  let ok = (String.length limit > 5 && String.sub limit 0 5 = "stale") || int_of_string limit >= save_text_len nl in
   Printf.sprintf "res=%s file=%s tmp=0" (if ok then "ok" else "err") (if ok then enc_rules nl else enc_rules (dec_rules old_l))
 let pred_savecrash old_l new_l impl =
   let m = kv impl in
